@@ -65,6 +65,27 @@ def gen_sym(rng, n, kind):
     if kind == "tiny":
         s = rng.choice([1e-18, 1e-30, 1e-8, 1e12])
         return [[x * s for x in r] for r in gen_sym(rng, n, "spd")]
+    if kind == "tridiagonal":
+        # already tridiagonal: every QL sweep is spent on the matrix as given (the slowest-converging class per dimension)
+        Mx = [[0.0] * n for _ in range(n)]
+        style = rng.randrange(4)     # small integer diagonal with non-zero integer couplings needs the most sweeps
+        for i in range(n):
+            Mx[i][i] = [float(rng.randrange(-1, 2)), float(rng.randrange(-1, 2)), float(rng.randrange(-4, 5)), rng.uniform(-2, 2)][style]
+            if i + 1 < n:
+                Mx[i][i + 1] = Mx[i + 1][i] = [float(rng.choice([-3, -2, -1, 1, 2, 3])), float(rng.choice([-3, -2, -1, 1, 2, 3])),
+                                               float(rng.choice([-3, -2, -1, 1, 2, 3])), rng.uniform(-2, 2)][style]
+        return Mx
+    if kind == "wilkinson":
+        # Wilkinson's W+ matrices (diagonal |c - i|, unit off-diagonals), optionally perturbed: pairs of nearly equal
+        # eigenvalues, the classic slow case for the QL iteration
+        c = (n - 1) / 2.0
+        pert = rng.choice([0.0, 1e-3, 1e-9])
+        Mx = [[0.0] * n for _ in range(n)]
+        for i in range(n):
+            Mx[i][i] = abs(c - i) + rng.uniform(-pert, pert)
+            if i + 1 < n:
+                Mx[i][i + 1] = Mx[i + 1][i] = 1.0
+        return Mx
     if kind == "block":
         Mx = [[0.0] * n for _ in range(n)]
         for i in range(n):
@@ -96,7 +117,7 @@ def run(ctx, drv):
     rng = ctx.rng
     ctx.nontrivial_rule = ("matrices of dimension 1-12: random dense, integer, diagonal, nearly singular, pivot-pattern (lsolve); symmetric "
                            "dense, integer, diagonal, repeated eigenvalues, SPD, tiny/huge scale, block (eigendecomposition via tred2+tql2 "
-                           "and via CMAES.eigendecomposition). non-trivial = dimension >= 3; distinct by request line")
+                           "and via CMAES.eigendecomposition). non-trivial = dimension >= 3; distinct by request line + homogeneous systems, a corpus of past findings, 1500 slow-converging tridiagonal / Wilkinson matrices of dimension 12, CMA-ES covariance stored as the algorithm stores it (lower triangle) and every eigen-update inside real CMA-ES runs")
     reqs, post = [], []
 
     def ask(line, fn):
@@ -171,9 +192,12 @@ def run(ctx, drv):
         ctx.case(reqs[-1], n >= 3, {"n": n, "kind": kind, "A": Amat[:3], "b": b[:3], "result": obs[:80]} if len(ctx.samples) < 2 and n == 3 else None)
         ctx.count("lsolve_" + kind)
     n2 = 500 if ctx.quick() else 8000
-    for t in range(n2):
+    n3 = 1500 if ctx.quick() else 12000          # the largest supported dimension, tridiagonal: many sweeps per eigenvalue
+    for t in range(n2 + n3):
         n = rng.randrange(1, 13) if t % 3 else rng.randrange(1, 6)
-        kind = rng.choice(["dense", "integer", "diagonal", "repeated", "spd", "tiny", "block"])
+        kind = rng.choice(["dense", "integer", "diagonal", "repeated", "spd", "tiny", "block", "tridiagonal"])
+        if t >= n2:
+            n, kind = 12, rng.choice(["tridiagonal", "tridiagonal", "tridiagonal", "tridiagonal", "wilkinson"])
         Cm = gen_sym(rng, n, kind)
         inp = {"C": Cm, "kind": kind, "n": n}
 
